@@ -40,9 +40,18 @@ AmpOf(V, S) == IF \E x \in V : x[1] = S THEN (CHOOSE x \in V : x[1] = S)[2] ELSE
 Expect(e, w) == LET B == Vec(e, e.bra)  K == Vec(e, e.ket) IN
                 CSum({x \in K : ApplyWord(w, <<1, x[1]>>, e.gr)[1] # 0},
                      LAMBDA x : LET r == ApplyWord(w, <<1, x[1]>>, e.gr)  a == CMul(CConj(AmpOf(B, r[2])), x[2]) IN <<r[1] * a[1], r[1] * a[2]>>)
-Ok(e) == CASE e.op = "generate" -> e.out = "ok" /\ ObservedOp(e) = ExpectedOp(e)
+(* sampling: a drawn configuration names, per site, one local vector u = <<u_empty, u_occupied>> (Gaussian integers, norm^2 = e.m per site: 1 for the occupation basis,   *)
+(* 2 for the x / y bases); the returned probability p is logged as the integer nearest to  p * <psi|psi> * m^N.  Born rule:  | sum_S conj(u(S)) psi(S) |^2             *)
+RECURSIVE ProdOver(_, _, _)
+ProdOver(e, S, i) == IF i > e.N THEN <<1, 0>> ELSE CMul(CConj(Z(e.u[i][IF (i - 1) * e.nm + 1 \in S THEN 2 ELSE 1])), ProdOver(e, S, i + 1))
+Overlap(e) == CSum(Vec(e, e.ket), LAMBDA x : CMul(ProdOver(e, x[1], 1), x[2]))
+Norm2(e) == MapThenSumSet(LAMBDA x : x[2][1] * x[2][1] + x[2][2] * x[2][2], Vec(e, e.ket))
+Born(e) == Overlap(e)[1] * Overlap(e)[1] + Overlap(e)[2] * Overlap(e)[2]
+Ok(e) == CASE e.op = "sample" -> e.out = "ok" /\ e.near /\ e.den = Norm2(e) /\ e.pnum = Born(e)
+           [] e.op = "generate" -> e.out = "ok" /\ ObservedOp(e) = ExpectedOp(e)
            [] e.op = "measure"  -> e.out = "ok" /\ Z(e.val) = Expect(e, WordOf(e, e.ops, e.pos))       \* <bra| o_1(p_1) ... o_k(p_k) |ket>, any order, repeated sites
 Why(e) == IF e.out # "ok" THEN <<e.op, "failed", e.out>>
+          ELSE IF e.op = "sample" THEN <<"sample: returned probability times <psi|psi> m^N", e.pnum, "near", e.near, "Born rule", Born(e), "norm", e.den, Norm2(e), "local vectors", e.u>>
           ELSE IF e.op = "generate" THEN <<"MPO differs from the sum of Jordan-Wigner operator products", "terms", e.terms, "fmap", e.fmap,
                                             "only in MPO", ObservedOp(e) \ ExpectedOp(e), "only in reference", ExpectedOp(e) \ ObservedOp(e)>>
           ELSE <<e.fn, e.ops, e.pos, "value", Z(e.val), "reference", Expect(e, WordOf(e, e.ops, e.pos))>>
